@@ -55,6 +55,9 @@ def build_harness(profiles=("release", "debug")):
         env["CARGO_NET_OFFLINE"] = "true"
         t0 = time.time()
         p = subprocess.run(cmd, cwd=HARNESS, env=env, stdout=subprocess.PIPE, stderr=subprocess.STDOUT, text=True)
+        if p.returncode != 0 and "error[" not in p.stdout and "error:" not in p.stdout.replace("error: could not compile", ""):
+            time.sleep(3)            # not a compile error (e.g. a lock held by another cargo): once more
+            p = subprocess.run(cmd, cwd=HARNESS, env=env, stdout=subprocess.PIPE, stderr=subprocess.STDOUT, text=True)
         if p.returncode != 0:
             raise ToolError("harness build (%s) failed:\n%s" % (prof, p.stdout[-4000:]))
         path = os.path.join(HARNESS, "target", prof, "hv")
